@@ -142,7 +142,8 @@ func checkAllPaths(mask int32, from, to uint64) *vk.Failure {
 
 func checkDecode(mask int32, bm []uint64) *vk.Failure {
 	want, _ := wantDecode(mask, bm)
-	keep := append([]uint64(nil), bm...)
+	keep := bm
+	bm = append(make([]uint64, 0, len(keep)), keep...) // the code under test gets a private copy
 	var got []uint64
 	if f := vk.Try(fmt.Sprintf("Decode(%#x, %d words)", mask, len(bm)), func() { got = bmtree.Decode(mask, bm) }); f != nil {
 		return f
